@@ -6,6 +6,7 @@ import (
 	"go/constant"
 	"go/token"
 	"go/types"
+	"math/big"
 	"strings"
 )
 
@@ -78,6 +79,75 @@ func ruleParseTail(c *Ctx) {
 	})
 	if n < 8 {
 		c.undecided("parse.sign.count", fd, fmt.Sprintf("only %d result constructors found", n), props...)
+	}
+	// 2b. every caller hands parseNumber the sign it scanned: a local set to true only under a test for '-',
+	// and never re-applies a sign afterwards (directed rounding inside parseNumber depends on the sign)
+	nCall := 0
+	for _, cname := range p.sortedFuncNames() {
+		cfd := p.Funcs[cname]
+		if cfd.Body == nil || cfd == fd {
+			continue
+		}
+		walkStack(cfd.Body, func(nd ast.Node, stack []ast.Node) {
+			call, ok := nd.(*ast.CallExpr)
+			if !ok || p.Funcs[p.calleeName(call)] != fd || len(call.Args) != 3 {
+				return
+			}
+			nCall++
+			key := fmt.Sprintf("parse.callsign:%s#%d", cname, nCall)
+			v := p.objOf(call.Args[1])
+			if v == nil || p.constOf(call.Args[1]) != nil {
+				c.bad(key, call, fmt.Sprintf("%s calls parseNumber with the sign `%s`; it must pass the sign it scanned from the input (rounding of long literals in the directed modes depends on it)", cname, p.exprStr(call.Args[1])), props...)
+				return
+			}
+			okAssign, sawTrue := true, false
+			walkStack(cfd.Body, func(m ast.Node, st2 []ast.Node) {
+				as, ok := m.(*ast.AssignStmt)
+				if !ok {
+					return
+				}
+				for i, l := range as.Lhs {
+					if p.objOf(l) != v || i >= len(as.Rhs) {
+						continue
+					}
+					b, isConst := p.constBool(as.Rhs[i])
+					if !isConst {
+						okAssign = false
+						continue
+					}
+					if b {
+						// under a test against '-'
+						minus := false
+						for _, f := range p.factsAt(append(append([]ast.Node{}, st2...), m), nil) {
+							x, op, k, ok := p.normCmp(f.cond)
+							_ = x
+							if ok && k.IsInt64() && k.Int64() == '-' && ((op == token.EQL && f.val) || (op == token.NEQ && !f.val)) {
+								minus = true
+							}
+						}
+						if !minus {
+							okAssign = false
+						}
+						sawTrue = true
+					}
+				}
+			})
+			reneg := ""
+			ast.Inspect(cfd.Body, func(m ast.Node) bool {
+				if cl, ok := m.(*ast.CallExpr); ok {
+					switch p.calleeName(cl) {
+					case "Decimal.Neg", "Abs", "Decimal.CopySign":
+						reneg = p.posStr(cl)
+					}
+				}
+				return true
+			})
+			c.check(okAssign && sawTrue && reneg == "", key, call, "the caller passes the scanned sign and does not re-apply one",
+				fmt.Sprintf("%s: the sign handed to parseNumber must be a flag set only under a test for '-', and the result must not be re-signed (%s)", cname, reneg), props...)
+		})
+	}
+	if nCall < 3 {
+		c.undecided("parse.callsign.count", fd, fmt.Sprintf("only %d callers of parseNumber found", nCall), props...)
 	}
 	// 3. dropped digits are sticky iff they are not '0'
 	found := 0
@@ -245,7 +315,7 @@ func ruleIsOne(c *Ctx) {
 		fd = p.Funcs["isOne"]
 	}
 	if fd == nil || fd.Body == nil {
-		c.undecided("isone.anchor", nil, "isOne not found", "C18", "C15")
+		c.undecided("isone.anchor", nil, "isOne not found", "C18", "C15", "C19")
 		return
 	}
 	// coefficient / exponent variables of decompose
@@ -259,7 +329,7 @@ func ruleIsOne(c *Ctx) {
 		return true
 	})
 	if sigKey == "" {
-		c.undecided("isone.shape", fd, "decompose call not found in isOne", "C18", "C15")
+		c.undecided("isone.shape", fd, "decompose call not found in isOne", "C18", "C15", "C19")
 		return
 	}
 	bad := ""
@@ -348,7 +418,7 @@ func rulePowStructure(c *Ctx) {
 		}
 	}
 	if len(norms) != 2 {
-		c.undecided("pow.strip", fd, fmt.Sprintf("%d trailing-zero normalisation loops found in PowWithMode, want 2 (exponent and base)", len(norms)), "C18", "C15")
+		c.undecided("pow.strip", fd, fmt.Sprintf("%d trailing-zero normalisation loops found in PowWithMode, want 2 (exponent and base)", len(norms)), "C18", "C15", "C19")
 	}
 	for i, nm := range norms {
 		// every condition that reads E (or computes with it) must come after the loop
@@ -375,7 +445,7 @@ func rulePowStructure(c *Ctx) {
 			})
 		}
 		c.check(early == "", fmt.Sprintf("pow.strip#%d", i+1), nm.loop, nm.eName+" is normalised (trailing zeros stripped) before it is tested",
-			"PowWithMode: "+nm.eName+" is tested at "+early+" before its trailing zeros are stripped: integers written with trailing zeros (2.0, 30) would be classified as non-integers or get the wrong parity", "C18", "C15")
+			"PowWithMode: "+nm.eName+" is tested at "+early+" before its trailing zeros are stripped: integers written with trailing zeros (2.0, 30) would be classified as non-integers or get the wrong parity", "C18", "C15", "C19")
 	}
 	// parity blocks
 	nPar := 0
@@ -490,10 +560,10 @@ func rulePowStructure(c *Ctx) {
 			}
 		}
 		c.check(okGuard, fmt.Sprintf("pow.parity#%d", nPar), be, "parity is read only when the stripped exponent is exactly the bias (an integer not divisible by ten)",
-			"PowWithMode: the parity of y is taken from its last digit, which is the units digit only when the stripped exponent equals the bias; with `>=` a multiple of ten with an odd leading part would count as odd", "C18", "C15")
+			"PowWithMode: the parity of y is taken from its last digit, which is the units digit only when the stripped exponent equals the bias; with `>=` a multiple of ten with an odd leading part would count as odd", "C18", "C15", "C19")
 	})
 	if nPar == 0 {
-		c.undecided("pow.parity", fd, "no test of the parity of y found in PowWithMode", "C18", "C15")
+		c.undecided("pow.parity", fd, "no test of the parity of y found in PowWithMode", "C18", "C15", "C19")
 	}
 }
 
@@ -655,4 +725,289 @@ func isParityExpr(p *Prog, b *ast.BinaryExpr) bool {
 		return (b.Op == token.AND && k == 1) || (b.Op == token.REM && k == 2)
 	}
 	return false
+}
+
+// Stale length: a local that holds len(x) must not be read after x itself
+// has been reassigned (x = x[i:], x = f(...)): the length then describes a
+// slice that no longer exists. Decided positionally within one statement
+// list and the lists nested in it (a reassignment inside a loop body makes
+// every later read in that loop stale too).
+func ruleStaleLen(c *Ctx) {
+	p := c.P
+	n := 0
+	seenKey := map[string]int{}
+	for _, name := range p.sortedFuncNames() {
+		fd := p.Funcs[name]
+		if fd.Body == nil {
+			continue
+		}
+		type alias struct {
+			lenVar types.Object
+			of     types.Object
+			def    token.Pos
+			scope  ast.Node // the block the alias lives in
+		}
+		var aliases []alias
+		walkStack(fd.Body, func(nd ast.Node, stack []ast.Node) {
+			as, ok := nd.(*ast.AssignStmt)
+			if !ok || len(as.Lhs) != len(as.Rhs) {
+				return
+			}
+			for i, r := range as.Rhs {
+				call, ok := ast.Unparen(r).(*ast.CallExpr)
+				if !ok || p.calleeName(call) != "builtin.len" || len(call.Args) != 1 {
+					continue
+				}
+				lv, of := p.objOf(as.Lhs[i]), p.objOf(call.Args[0])
+				if lv == nil || of == nil {
+					continue
+				}
+				if _, isSlice := of.Type().Underlying().(*types.Slice); !isSlice {
+					if _, isTP := of.Type().(*types.TypeParam); !isTP {
+						if b, isB := of.Type().Underlying().(*types.Basic); !isB || b.Kind() != types.String {
+							continue
+						}
+					}
+				}
+				aliases = append(aliases, alias{lenVar: lv, of: of, def: as.Pos()})
+			}
+		})
+		for _, al := range aliases {
+			// reassignments of the slice after the alias was taken, and re-definitions of the alias
+			var reassign, redef []token.Pos
+			ast.Inspect(fd.Body, func(nd ast.Node) bool {
+				as, ok := nd.(*ast.AssignStmt)
+				if !ok {
+					return true
+				}
+				for i, l := range as.Lhs {
+					if p.objOf(l) == al.of && as.Pos() > al.def {
+						reassign = append(reassign, as.Pos())
+					}
+					if p.objOf(l) == al.lenVar && as.Pos() > al.def && i < len(as.Rhs) {
+						redef = append(redef, as.Pos())
+					}
+				}
+				return true
+			})
+			n++
+			seenKey[name+":"+al.lenVar.Name()]++
+			key := fmt.Sprintf("stalelen:%s:%s#%d", name, al.lenVar.Name(), seenKey[name+":"+al.lenVar.Name()])
+			if len(reassign) == 0 {
+				c.ok(key, nil, al.lenVar.Name()+" = len("+al.of.Name()+"): "+al.of.Name()+" is not reassigned afterwards", funcProps(name)...)
+				continue
+			}
+			// a read of the alias after the first reassignment with no fresh definition in between
+			stale := ""
+			ast.Inspect(fd.Body, func(nd ast.Node) bool {
+				id, ok := nd.(*ast.Ident)
+				if !ok || p.Info.Uses[id] != al.lenVar || stale != "" {
+					return true
+				}
+				first := token.NoPos
+				for _, r := range reassign {
+					if r < id.Pos() && (first == token.NoPos || r < first) {
+						first = r
+					}
+				}
+				if first == token.NoPos {
+					return true
+				}
+				for _, rd := range redef {
+					if rd > first && rd < id.Pos() {
+						return true
+					}
+				}
+				stale = p.posStr(id)
+				return true
+			})
+			c.check(stale == "", key, nil, al.lenVar.Name()+" is not read after "+al.of.Name()+" is reassigned",
+				fmt.Sprintf("%s: %s holds len(%s) taken before %s was reassigned, and is read at %s: the length describes a slice that no longer exists", name, al.lenVar.Name(), al.of.Name(), al.of.Name(), stale), funcProps(name)...)
+		}
+	}
+	if n < 3 {
+		c.undecided("stalelen.count", nil, fmt.Sprintf("only %d length aliases found", n))
+	}
+}
+
+// G5: a conversion to a narrower signed integer type is applied only to a
+// value whose interval (constants, masks, small library results, or the
+// guards that dominate it - interval analysis) fits the target type.
+func ruleNarrowing(c *Ctx) {
+	p := c.P
+	n := 0
+	for _, name := range p.sortedFuncNames() {
+		fd := p.Funcs[name]
+		if fd.Body == nil {
+			continue
+		}
+		if fd.Recv != nil && strings.HasPrefix(recvTypeName(fd.Recv.List[0].Type), "uint") {
+			continue // the integer kernel converts between limb widths by design
+		}
+		k := map[string]int{}
+		walkStack(fd.Body, func(nd ast.Node, stack []ast.Node) {
+			call, ok := nd.(*ast.CallExpr)
+			if !ok || len(call.Args) != 1 {
+				return
+			}
+			tv, ok := p.Info.Types[call.Fun]
+			if !ok || !tv.IsType() {
+				return
+			}
+			tb, ok := tv.Type.Underlying().(*types.Basic)
+			if !ok || tb.Info()&types.IsInteger == 0 || tb.Info()&types.IsUnsigned != 0 {
+				return
+			}
+			tw, _ := typeWidth(tv.Type)
+			if tw >= 64 {
+				return
+			}
+			arg := call.Args[0]
+			if p.constOf(arg) != nil {
+				return
+			}
+			at := p.typeOf(arg)
+			ab, ok := at.Underlying().(*types.Basic)
+			if !ok || ab.Info()&types.IsInteger == 0 {
+				return
+			}
+			aw, _ := typeWidth(at)
+			if aw < tw || (aw == tw && ab.Info()&types.IsUnsigned == 0) {
+				return // widening or same-width signed
+			}
+			n++
+			base := fmt.Sprintf("narrow:%s:%s(%s)", name, tb.Name(), p.exprStr(arg))
+			k[base]++
+			key := fmt.Sprintf("%s#%d", base, k[base])
+			lo := new(big.Int).Neg(new(big.Int).Lsh(big.NewInt(1), uint(tw-1)))
+			hi := new(big.Int).Sub(new(big.Int).Lsh(big.NewInt(1), uint(tw-1)), big.NewInt(1))
+			full := append(append([]ast.Node{}, stack...), nd)
+			iv, why := p.intervalAt(fd, arg, full), "interval analysis of the enclosing function"
+			fits := iv.lo != nil && iv.hi != nil && iv.lo.Cmp(lo) >= 0 && iv.hi.Cmp(hi) <= 0
+			fp := funcProps(name)
+			if fits {
+				c.ok(key, call, fmt.Sprintf("operand in [%s, %s] (%s) fits %s", iv.lo, iv.hi, why, tb.Name()), fp...)
+				return
+			}
+			if reason, ok := narrowReviewed[name+"|"+p.exprStr(call)]; ok {
+				c.exempt(key, call, reason, fp...)
+				return
+			}
+			desc := "unbounded"
+			if iv.lo != nil || iv.hi != nil {
+				desc = fmt.Sprintf("[%v, %v]", iv.lo, iv.hi)
+			}
+			c.bad(key, call, fmt.Sprintf("%s: `%s` narrows a value whose range at this point is %s (%s); it must be bounded to %s..%s by a guard that still holds here, or the value wraps", name, p.exprStr(call), desc, why, lo, hi), fp...)
+		})
+	}
+	if n < 15 {
+		c.undecided("narrow.count", nil, fmt.Sprintf("only %d narrowing conversions found", n))
+	}
+}
+
+// narrowReviewed: conversions whose bound needs an argument the interval analysis does not make
+// (one construct, one reason; keyed by function and expression, not by line).
+var narrowReviewed = map[string]string{
+	"Decimal.Int32|int32(sig[0])": "the interval is [0, 2^31]: 2^31 is admitted for negative values only (guard `sig[0] > -MinInt32`), wraps to MinInt32, and the following negation leaves MinInt32 unchanged - the intended result",
+}
+
+// Decimal.Float: the power of ten that scales the coefficient must be an exact
+// big.Float: `new(big.Float).SetInt(x)` gives the fresh value exactly the
+// precision x needs (math/big: a zero precision is raised to x.BitLen()), any
+// SetPrec/SetMode before the SetInt rounds the factor and the product or
+// quotient is then rounded twice.
+func ruleBigExact(c *Ctx) {
+	p := c.P
+	fd := c.fn("Decimal.Float")
+	if fd == nil {
+		return
+	}
+	// exact(e): new(big.Float).SetInt(_) , or a local defined once by such an expression and never re-precisioned
+	var exact func(e ast.Expr) (bool, string)
+	exact = func(e ast.Expr) (bool, string) {
+		e = ast.Unparen(e)
+		switch x := e.(type) {
+		case *ast.CallExpr:
+			cn := p.calleeName(x)
+			sel, isSel := x.Fun.(*ast.SelectorExpr)
+			switch {
+			case strings.HasSuffix(cn, "big.Float).SetInt") || cn == "math/big.Float.SetInt" || (isSel && sel.Sel.Name == "SetInt"):
+				recv, ok := ast.Unparen(sel.X).(*ast.CallExpr)
+				if ok && p.calleeName(recv) == "builtin.new" {
+					return true, ""
+				}
+				return false, "SetInt is applied to `" + p.exprStr(sel.X) + "`, which is not a fresh new(big.Float): its precision was fixed beforehand"
+			}
+			return false, "`" + p.exprStr(e) + "` is not new(big.Float).SetInt(...)"
+		case *ast.Ident:
+			o := p.objOf(x)
+			var def ast.Expr
+			n := 0
+			bad := ""
+			ast.Inspect(fd.Body, func(m ast.Node) bool {
+				switch y := m.(type) {
+				case *ast.AssignStmt:
+					for i, l := range y.Lhs {
+						if p.objOf(l) == o {
+							n++
+							if len(y.Lhs) == len(y.Rhs) {
+								def = y.Rhs[i]
+							}
+						}
+					}
+				case *ast.CallExpr:
+					if sel, ok := y.Fun.(*ast.SelectorExpr); ok && p.objOf(sel.X) == o {
+						switch sel.Sel.Name {
+						case "SetPrec", "SetMode", "Set", "SetFloat64", "Mul", "Quo", "Add", "Sub":
+							bad = "`" + x.Name + "." + sel.Sel.Name + "` changes the factor after it was built"
+						}
+					}
+				}
+				return true
+			})
+			if bad != "" {
+				return false, bad
+			}
+			if n != 1 || def == nil {
+				return false, "`" + x.Name + "` is not defined exactly once"
+			}
+			return exact(def)
+		}
+		return false, "`" + p.exprStr(e) + "` is not new(big.Float).SetInt(...)"
+	}
+	n := 0
+	recvParam := paramObjs(p, fd)
+	ast.Inspect(fd.Body, func(m ast.Node) bool {
+		call, ok := m.(*ast.CallExpr)
+		if !ok {
+			return true
+		}
+		sel, ok := call.Fun.(*ast.SelectorExpr)
+		if !ok || (sel.Sel.Name != "Mul" && sel.Sel.Name != "Quo") || len(call.Args) != 2 {
+			return true
+		}
+		if t := p.typeOf(sel.X); t == nil || !strings.Contains(t.String(), "big.Float") {
+			return true
+		}
+		n++
+		var fObj types.Object
+		if len(recvParam) == 1 {
+			fObj = recvParam[0]
+		}
+		okAll, why := true, ""
+		for _, a := range call.Args {
+			if fObj != nil && p.objOf(a) == fObj {
+				continue // the result value itself, rounded once by this operation
+			}
+			if ok, w := exact(a); !ok {
+				okAll, why = false, w
+			}
+		}
+		c.check(okAll, fmt.Sprintf("bigexact:%s#%d", sel.Sel.Name, n), call, "the power-of-ten operand is an exact big.Float (fresh value, SetInt only)",
+			"Decimal.Float: "+why+"; the scaling factor 10^|exp| must be exact so that the result is rounded once, by the final Mul/Quo", "C09")
+		return true
+	})
+	if n < 2 {
+		c.undecided("bigexact.count", fd, fmt.Sprintf("%d scaling operations found in Decimal.Float, want 2", n), "C09")
+	}
 }
